@@ -309,36 +309,54 @@ def run(ctx, rep):
         name = cs.declared_norm
         if not (name in ("[T]::get", "parse::ParseAt::parse_at", "parse::ReadBytesExt::get_bytes") or name in ENDIAN_READS):
             return False
+        return any(is_buf(a, bufs_of(q)) for a in cs.arg_values())
+
+    def bufs_of(q):
         bufs = {T.param(i) for (qq, pidx, _) in done if qq == q for i in pidx}
         if any(vs for (qq, _, vs) in done if qq == q):
             bufs.add(T.proj(T.deref(T.param(1)), data_field))
-        return any(is_buf(a, bufs) for a in cs.arg_values())
+        if "{closure" in q:
+            # a closure inside an ElfBytes method reaches the buffer through the captured `self`: (*(*env).k).data
+            an_ = analyze_fn(F, F.fns[q][0])
+            for cs_ in an_.calls():
+                for a in cs_.arg_values():
+                    for x in a.subterms():
+                        if x.op == "proj" and x.args[1] == data_field and x.args[0].op == "deref" and x.args[0].args[0].op == "proj" \
+                                and x.args[0].args[0].args[0] in (T.deref(T.param(1)), T.param(1)):
+                            bufs.add(x)
+        return bufs
+
+    def passes_file(q, cs, lf):
+        """does this call hand the file buffer (or the ElfBytes handle that holds it) to the callee?"""
+        vals = cs.arg_values()
+        if any(is_buf(a, bufs_of(q)) for a in vals):
+            return True
+        ins = lf.get("sig", {}).get("inputs", []) if lf.get("sig") else []
+        return bool(ins) and nm(ins[0]).startswith("&elf_bytes::ElfBytes") and len(vals) > 0
     readers = set()
-    for q in seen_fns:
+    scope = set(seen_fns) | {fn["qual"] for fn in F.all_fns() if "{closure" in fn["qual"] and fn["qual"].split("::{closure")[0] in seen_fns}
+    for q in scope:
         if any(primitive_read(q, cs) for cs in analyze_fn(F, F.fns[q][0]).calls()):
             readers.add(q)
     changed = True
     while changed:
         changed = False
-        for fn in F.all_fns():
-            if fn["qual"] in readers:
-                continue
+        for q in sorted(scope - readers):
+            fn = F.fns[q][0]
             for cs in analyze_fn(F, fn).calls():
                 lf = prog.local_fn(cs.callee)
-                if lf is not None and lf["qual"] in readers:
-                    readers.add(fn["qual"])
+                if lf is not None and lf["qual"] in readers and passes_file(q, cs, lf):
+                    readers.add(q)
                     changed = True
                     break
     rep.info["readers"] = sorted(readers)
     n_prop = 0
-    for fn in F.all_fns():
-        q = fn["qual"]
-        if not (q in seen_fns or q in readers):
-            continue
+    for q in sorted(scope):
+        fn = F.fns[q][0]
         an = analyze_fn(F, fn)
         for cs in an.calls():
             lf = prog.local_fn(cs.callee)
-            reads = (lf is not None and lf["qual"] in readers and lf["qual"] != q) or (q in seen_fns and primitive_read(q, cs))
+            reads = (lf is not None and lf["qual"] in readers and lf["qual"] != q and passes_file(q, cs, lf)) or primitive_read(q, cs)
             if not reads:
                 continue
             dty = nm(cs.term["dest"]["ty"])
